@@ -433,7 +433,7 @@ func ruleC04Units(c *Ctx) {
 			c.unresolved("expected exactly one conversion keeping an old row's position in indexHeader, found %d", nOld)
 		}
 	}
-	if nsites < 40 {
+	if nsites < half(40) {
 		c.unresolved("only %d position-carrying sites classified (expected >= 40)", nsites)
 	}
 }
@@ -636,7 +636,7 @@ func ruleC04SeekFormula(c *Ctx) {
 				"the (record, block) pair is not derived as n / RecordSize and n - record*RecordSize from one and the same block count")
 		}
 	}
-	if n < 12 {
+	if n < half(12) {
 		c.unresolved("only %d offset expressions / re-derivations found in pkg/recovery", n)
 	}
 }
@@ -696,7 +696,7 @@ func ruleC04Advance(c *Ctx) {
 			c.verdictIf(s&freshR != 0 && s&freshB != 0, rule, f, fmt.Sprintf("position use#%d", k), cs.Call.Pos(),
 				"(record, block) were both re-assigned since the previous header was indexed", "a header can be indexed with the (record, block) of the previous member: on some path the position is not advanced between two members")
 		}
-		if k < 2 {
+		if k < half(2) {
 			c.unresolved("only %d position uses in %s", k, name)
 		}
 	}
